@@ -723,3 +723,4 @@ T("C05", "tag-list-else-first", LX, '        if program == "*":\n            tag
   '        if program != "*":\n            tags = self._get_tag_list(program)\n        else:\n            tags = self._get_tag_list()\n            for prog in self._info["programs"]:\n                tags += self._get_tag_list(prog)\n')
 T("C01", "send-requests-value-precomputed", LX, '                    if response:\n                        results[request.request_id] = Tag(\n                            request.tag,\n                            response.value if request.type_ == "read" else request.value,',
   '                    if response:\n                        _is_read = request.type_ == "read"\n                        results[request.request_id] = Tag(\n                            request.tag,\n                            response.value if _is_read else request.value,')
+T("C12", "header-unpacked-in-one-go", "pycomm3/socket_.py", '            data_len = struct.unpack_from("<H", data, 2)[0]', '            _command, data_len = struct.unpack_from("<HH", data)')
